@@ -135,8 +135,8 @@ def checkFilter : Filter → Option Err
   | .re key _ off => checkKey key off
 where
   checkKey (key : Bytes) (off : Int) : Option Err :=
-    if key == Bytes.ofString ".unit" then none
-    else if key == Bytes.ofString ".config" then some ⟨off, .configInFilter⟩
+    if key == kUnit then none
+    else if key == kConfig then some ⟨off, .configInFilter⟩
     else if key.isEmpty then some ⟨off, .emptyKey⟩
     else none
   checkList : List Filter → Option Err
